@@ -18,7 +18,7 @@ E1C_CONTAINERS = {
 }
 
 
-@rule("E1c", "ANNOUNCE-FIRST: a statement announces itself to the visitor before its operands are visited (hoisted calls land in their own statement)", ["C05", "C04", "C06", "C01"], floor=15, default_props=["C05", "C04", "C01"])
+@rule("E1c", "ANNOUNCE-FIRST: a statement announces itself to the visitor before its operands are visited (hoisted calls land in their own statement)", ["C05", "C04", "C06", "C01", "C02"], floor=15, default_props=["C05", "C04", "C01"])
 def e1c(ctx: Ctx):
     em = emitmodel(ctx)
     py = em.py
@@ -53,12 +53,15 @@ def e1c(ctx: Ctx):
             ctx.ob(cls, True, file=r[0].module, line=r[1].lineno)
             continue
         ok = ann < first_child
+        # for a statement that transfers control, a call computed in the wrong place also changes the path taken
+        cf = bool(__import__("re").search(r"(OnGo|Goto|Gosub|If|For|Next|While)", cls))
         ctx.ob(
             cls,
             ok,
             "" if ok else f"`{r[0].name}.visit` visits its operands before calling visitor.visit_statement(self): procedure calls hoisted out of the operands are attached to the previously visited statement (computed too early, or once instead of on every iteration)",
             file=r[0].module,
             line=r[1].lineno,
+            props=["C05", "C04", "C01", "C02"] if cf else None,
         )
 
 
